@@ -98,6 +98,65 @@ func extractImport() {
 	l.def("validatedRanges", "List String", lstrs(valRanges), "start,end index arguments of the iterators the block and filter validators are run over in Import")
 	shape["validatedRanges"] = valRanges
 
+	// appendNewHeaders: where the loop looks at the context, relative to processBatch
+	cancelBefore := false
+	if fd := funcDecl(f, "headersImport", "appendNewHeaders"); fd != nil {
+		var cancelPos, procPos []token.Pos
+		ast.Inspect(fd.Body, func(n ast.Node) bool {
+			fs, ok := n.(*ast.ForStmt)
+			if !ok {
+				return true
+			}
+			for _, c := range calls(fs.Body) {
+				switch c.name {
+				case "ctxCancelled":
+					cancelPos = append(cancelPos, c.pos)
+				case "h.processBatch":
+					procPos = append(procPos, c.pos)
+				}
+			}
+			return false
+		})
+		if len(cancelPos) == 0 || len(procPos) != 1 {
+			fail("appendNewHeaders: a for loop calling ctxCancelled and h.processBatch")
+		} else {
+			cancelBefore = len(cancelPos) == 1 && cancelPos[0] < procPos[0]
+		}
+	}
+	l.def("cancelCheckBeforeProcessBatch", "Bool", lbool(cancelBefore), "the write loop of appendNewHeaders looks at the context exactly once per iteration, before processBatch")
+	shape["cancelCheckBeforeProcessBatch"] = cancelBefore
+
+	// the validators: what they do when they see a cancelled context
+	nilOnCancel := true
+	for _, vf := range [][2]string{{"chainimport/block_headers_validator.go", "blockHeadersImportSourceValidator"},
+		{"chainimport/filter_headers_validator.go", "filterHeadersImportSourceValidator"}} {
+		pf := parse(vf[0])
+		fd := funcDecl(pf, vf[1], "Validate")
+		if fd == nil {
+			fail("%s: method %s.Validate", vf[0], vf[1])
+			nilOnCancel = false
+			continue
+		}
+		found := false
+		ast.Inspect(fd.Body, func(n ast.Node) bool {
+			is, ok := n.(*ast.IfStmt)
+			if !ok || is.Init == nil || !strings.Contains(src(is.Init), "ctxCancelled") {
+				return true
+			}
+			found = true
+			if len(is.Body.List) != 1 || strings.TrimSpace(src(is.Body.List[0])) != "return nil" {
+				nilOnCancel = false
+			}
+			return true
+		})
+		if !found {
+			fail("%s: Validate polls ctxCancelled", vf[0])
+			nilOnCancel = false
+		}
+	}
+	l.def("validatorsReturnNilOnCancel", "Bool", lbool(nilOnCancel), "both validators return nil (no error) when they see a cancelled context")
+	shape["validatorsReturnNilOnCancel"] = nilOnCancel
+
 	var order []string
 	rollbackInBranch := false
 	rollbackCount := ""
